@@ -9,7 +9,7 @@
                                      guarantees about its own arrays (hypotheses, not verified)
    All theorems quantify over every number type with exact arithmetic ((a + b) - b = a). *)
 From Coq Require Import ZArith List Sorting.Sorted.
-From PAFC05 Require Import Model Proofs1 Proofs2 Proofs3 Proofs4 Proofs5 Proofs6.
+From PAFC05 Require Import Model Proofs1 Proofs2 Proofs3 Proofs4 Proofs5 Proofs6 Machine.
 Import ListNotations.
 
 (* ---------- Sample.from_lists: the i-th sample is the i-th entry of every list ---------- *)
@@ -260,6 +260,41 @@ Theorem C05_best_vector :
     vector_for V (all_paths pp) (s_kw s) = Some (s_vec V s) /\ In (s_vec V s) rows.
 Proof. exact best_vector_is_row. Qed.
 
+(* ---------- ONE Samples object used several times (Machine.v): `instance` is cached in `_instance`; derived objects
+   (samples + other, weight threshold, copy, with_paths / without_paths) are used afterwards.  A policy says which
+   derivations keep the parent's cache.  Every answer of every history is the answer of a fresh object holding the
+   current model and sample list, for every policy that keeps the cache only where the answer cannot change ---------- *)
+Theorem C05_samples_history_independent :
+  forall (V : Type) (ltb : V -> V -> bool) (p : policy V) (ops : list (op V)) (s : sstate V),
+    sound_on V ltb p ops -> run V ltb p s None ops = expected V ltb s ops.
+Proof. exact samples_history_independent. Qed.
+
+(* the proposed repair (__copy__ forgets `_instance`): unconditionally *)
+Theorem C05_samples_history_fixed_policy :
+  forall (V : Type) (ltb : V -> V -> bool) (ops : list (op V)) (s : sstate V),
+    run V ltb (fixed_policy V) s None ops = expected V ltb s ops.
+Proof. exact samples_history_fixed. Qed.
+
+(* the code that exists: as long as no with_paths / without_paths derivation occurs in the history *)
+Theorem C05_samples_history_code_partial :
+  forall (V : Type) (ltb : V -> V -> bool) (ops : list (op V)) (s : sstate V),
+    no_reduction V ops -> run V ltb (code_policy V) s None ops = expected V ltb s ops.
+Proof. exact samples_history_code_partial. Qed.
+
+(* whatever was done before, the instance asked last is the best-fit vector of the object's current state *)
+Theorem C05_samples_last_instance :
+  forall (V : Type) (ltb : V -> V -> bool) (p : policy V) (before : list (op V)) (s : sstate V),
+    sound_on V ltb p before ->
+    run V ltb p s None (before ++ [OInstance V]) =
+    expected V ltb s before ++ [RVec V (answer V ltb (final_state V s before))].
+Proof. exact samples_last_instance. Qed.
+
+(* the code that exists is NOT history independent: read `instance`, reduce with with_paths, read `instance` again *)
+Theorem C05_samples_copy_keeps_instance_refuted :
+  exists (ops : list (op Z)) (s : sstate Z),
+    run Z Z.ltb (code_policy Z) s None ops <> expected Z Z.ltb s ops.
+Proof. exact samples_copy_keeps_instance_refuted. Qed.
+
 Print Assumptions C05_from_lists_pairing.
 Print Assumptions C05_dynesty_pairing.
 Print Assumptions C05_emcee_pairing.
@@ -268,3 +303,8 @@ Print Assumptions C05_pyswarms_pairing_legacy_refuted.
 Print Assumptions C05_best_is_first_maximum.
 Print Assumptions C05_best_vector.
 Print Assumptions C05_initializer_pairing.
+Print Assumptions C05_samples_history_independent.
+Print Assumptions C05_samples_history_fixed_policy.
+Print Assumptions C05_samples_history_code_partial.
+Print Assumptions C05_samples_last_instance.
+Print Assumptions C05_samples_copy_keeps_instance_refuted.
